@@ -182,7 +182,11 @@ impl Check for C07SortBy {
         tier.pick(30_000, 600_000)
     }
     fn strategy(&self, _t: Tier) -> BoxedStrategy<CaseSortBy> {
-        (arb_recs(KEY_FIELDS, all_universe(), 40, 1), arb_sort_keys()).prop_map(|(recs, keys)| CaseSortBy { recs, keys }).boxed()
+        // mostly <= 40 rows; one case in six is long (sorting algorithms switch strategy with the
+        // length, e.g. insertion sort below ~20 elements, so short inputs alone cannot see an
+        // unstable or length-dependent sort)
+        let recs = prop_oneof![5 => arb_recs(KEY_FIELDS, all_universe(), 40, 1), 1 => arb_recs(KEY_FIELDS, all_universe(), 160, 1)];
+        (recs, arb_sort_keys()).prop_map(|(recs, keys)| CaseSortBy { recs, keys }).boxed()
     }
     fn check(&self, case: &CaseSortBy) -> CaseResult {
         let ord = order();
@@ -256,7 +260,8 @@ impl Check for C07SortFn {
             "sort", "sort_unique", "sort_by", "sort_by_values", "sort_by_values_by", "sort_by_keys", "order", "order_unique", "order_by", "order_by_values",
             "order_by_values_by", "order_by_keys",
         ];
-        (prop::sample::select(funcs), vec(0..n, 1..6), vec((0u32..10, any::<u16>()), 0..25), vec("[a-e\u{e9}A-C0-2 ]{0,3}", 25))
+        let cells = prop_oneof![5 => vec((0u32..10, any::<u16>()), 0..25), 1 => vec((0u32..10, any::<u16>()), 25..160)];
+        (prop::sample::select(funcs), vec(0..n, 1..6), cells, vec("[a-e\u{e9}A-C0-2 ]{0,3}", 25))
             .prop_map(|(f, pool, cells, names)| {
                 let keyed = matches!(canonical_fn(f), "sort_by" | "sort_by_values_by");
                 let items = cells.iter().map(|(a, p)| if keyed && *a < 2 { None } else { Some(pool[pick_idx(*p, pool.len())]) }).collect();
@@ -337,6 +342,7 @@ impl Check for C07SortFn {
             .class(match f { "sort" => "fn:sort", "sort_unique" => "fn:sort_unique", "sort_by" => "fn:sort_by", "sort_by_values" => "fn:sort_by_values", "sort_by_values_by" => "fn:sort_by_values_by", _ => "fn:sort_by_keys" })
             .class_if(case.items.iter().any(|i| i.is_none()), "absent_keys")
             .class_if(f != case.func, "alias")
+            .class_if(n > 32, "long_list")
             .obs(json!({"result": trunc(&x.to_json(), 300)}));
         let u = universe_vals();
         let fail = |m: String| CaseResult::Fail(format!("{} on {}: {}; got {}", expr, trunc(&input, 400), m, trunc(&x.to_json(), 400)));
